@@ -83,20 +83,31 @@ def subParser (which : String) (src : Bytes) : String :=
 
 /-! ### `script` requests: build-script runs on the abstract file system -/
 
-/-- entries: `f<name>:<content>` | `d<name>(<entries>)`, comma separated; returns (entries, rest) -/
-partial def parseEntries (s : List Char) : List Entry × List Char :=
+/-- entries: `f<name>:<content>` | `l<name>:<content>` (symbolic link, bytes of what it resolves to) |
+`d<name>(<entries>)`, comma separated; returns (entries, rest) -/
+partial def parseEntries (s : List Char) : List IEntry × List Char :=
   let rec takeHex (s : List Char) (acc : List Char) : List Char × List Char :=
     match s with
     | c :: r => if c.isAlphanum || c == '-' then takeHex r (c :: acc) else (acc.reverse, s)
     | [] => (acc.reverse, [])
-  let rec go (s : List Char) (acc : List Entry) : List Entry × List Char :=
+  let rec go (s : List Char) (acc : List IEntry) : List IEntry × List Char :=
     match s with
     | 'f' :: r =>
       let (n, r) := takeHex r []
       match r with
       | ':' :: r =>
         let (c, r) := takeHex r []
-        let e := Entry.file (unhex (String.ofList n)) (unhex (String.ofList c))
+        let e := IEntry.file (unhex (String.ofList n)) (unhex (String.ofList c))
+        match r with
+        | ',' :: r => go r (e :: acc)
+        | _ => ((e :: acc).reverse, r)
+      | _ => (acc.reverse, r)
+    | 'l' :: r =>
+      let (n, r) := takeHex r []
+      match r with
+      | ':' :: r =>
+        let (c, r) := takeHex r []
+        let e := IEntry.link (unhex (String.ofList n)) (unhex (String.ofList c))
         match r with
         | ',' :: r => go r (e :: acc)
         | _ => ((e :: acc).reverse, r)
@@ -107,7 +118,7 @@ partial def parseEntries (s : List Char) : List Entry × List Char :=
       | '(' :: r =>
         let (sub, r) := parseEntries r
         let r := match r with | ')' :: r => r | _ => r
-        let e := Entry.dir (unhex (String.ofList n)) sub
+        let e := IEntry.dir (unhex (String.ofList n)) sub
         match r with
         | ',' :: r => go r (e :: acc)
         | _ => ((e :: acc).reverse, r)
